@@ -96,7 +96,7 @@ INNER_TJ_INV = [
 UNIT = {
  'name': 'serops',
  'doc': 'serialize_ops (look-ahead merging writer) reads back, under the operator table of units/ops, as the sequence it was given',
- 'rlimit': 80, 'timeout': 3000,
+ 'rlimit': 250, 'timeout': 6000,
  'deviations': {},
  'allowed_assumes': [],
  'items': {
